@@ -3,6 +3,7 @@ import XPathV.Lemmas.Facts
 import XPathV.Lemmas.RootedPlans
 import XPathV.Lemmas.Compose
 import XPathV.Lemmas.Compose2
+import XPathV.Lemmas.Compose3
 import XPathV.Lemmas.Pull2.Context
 /-!
 # C13 — absolute paths ignore the start node; relative paths compose with the context
@@ -234,5 +235,107 @@ example : AbsPF (.axis (stepA "b") (.axis (stepA "a") (.root "/"))) ∧
   refine ⟨?_, ?_, rfl⟩
   · exact .axis _ _ (.axis _ _ (.root _) (by decide)) (by decide)
   · exact .axis _ _ .none (by decide)
+
+end XPathV.Theorems.C13
+
+/-! ## C13 on the whole C02 fragment `PredSem2.Frag2` (`Lemmas/Compose3.lean`)
+
+`AbsFrag2` / `RelFrag2`: the step-chain shapes of `AbsFrag` / `RelFrag` with predicates in
+`Frag2 false` (count / contains / starts-with / ends-with / local-name tests, path-vs-path and
+path-vs-string comparisons with the six operators, on top of the boolean predicates of `Frag`);
+`AbsFrag2` also has the parenthesised form `(P)[b]` with `P` absolute. -/
+namespace XPathV.Theorems.C13
+open XPathV XPathV.Model XPathV.Facts XPathV.PathSem XPathV.Compose NumAlg
+open XPathV.PredSem XPathV.PredSem2 XPathV.Compose2 XPathV.Compose3
+
+variable {F : Type} [NumAlg F]
+
+/-- the fragments of the `_with_predicates` theorems embed in those of the `_full` ones -/
+theorem C13_absFrag_embeds {p : Ast} (h : AbsFrag p) : AbsFrag2 p := absFrag2_of_absFrag h
+
+theorem C13_relFrag_embeds {p : Ast} (h : RelFrag p) : RelFrag2 p := relFrag2_of_relFrag h
+
+theorem C13_frag_embeds {p : Ast} (h : Frag true p) : Frag2 true p := frag2_of_frag true p h
+
+/-- **C13, absolute paths, whole C02 fragment**: the plan built from any absolute path of `AbsFrag2`
+(predicates of `Frag2` on any step, `(P)[b]`, the merge rewrite included) yields the same sequence —
+or the same failure — from every start node; no assumption on the document, the configuration or
+the start nodes -/
+theorem C13_absolute_build_full (d : Doc) (cfg : ECfg) (regexOk : RegexOk) (limit : Nat)
+    (snt sdf : Bool) {p : Ast} (hp : AbsFrag2 p) (fl : Flags) (st : BState) (o : BOut)
+    (h : build regexOk limit snt sdf p fl st = .ok o) (c₁ c₂ : Ref) :
+    sel (F := F) d cfg o.q c₁ = sel (F := F) d cfg o.q c₂ :=
+  abs_build_start_indep3 d cfg regexOk limit snt sdf hp fl st o h c₁ c₂
+
+/-- … and the oracle: an absolute path of `AbsFrag2` has the same value in every context -/
+theorem C13_absolute_spec_full (d : Doc) {p : Ast} (hp : AbsFrag2 p) (c₁ c₂ : Spec.Ctx) :
+    Spec.eval (F := F) d p c₁ = Spec.eval (F := F) d p c₂ :=
+  abs_eval_indep3 d hp c₁ c₂
+
+/-- **C13, relative paths compose with the context, whole C02 fragment**, through the builder: if
+the path `q` of `Frag2` addresses exactly `n`, the built plan of `p` (`RelFrag2`) at `n` and the built
+plan of `q/p` at the root select the same node set -/
+theorem C13_relative_compose_full {d : Doc} (wf : WF d) (cfg : ECfg) (hns : cfg.nsIface = true)
+    (hinj : HashInj d cfg) (regexOk : RegexOk) (limit : Nat)
+    {q p : Ast} (hq : Frag2 true q) (hp : RelFrag2 p) (n : Ref)
+    (h : nodesOf (Spec.eval (F := F) d q ⟨.node 0, 1, 1⟩) = [n])
+    (st st' : BState) (o o' : BOut)
+    (hb : build regexOk limit true false p {} st = .ok o)
+    (hb' : build regexOk limit true false (appendPath2 q p) {} st' = .ok o') :
+    ∃ o1 o2, sel (F := F) d cfg o.q n = .ok o1 ∧ sel (F := F) d cfg o'.q (.node 0) = .ok o2 ∧
+      ∀ x, x ∈ refs o1 ↔ x ∈ refs o2 :=
+  rel_compose_build3 wf cfg hns hinj regexOk limit hq hp n h st st' o o' hb hb'
+
+/-- `C13_relative_compose_full` without the `HashInj` hypothesis (`hashInj_holds`; the side condition
+left is "no element has two attributes with the same prefix, name and value") -/
+theorem C13_relative_compose_full_unconditional {d : Doc} (wf : WF d) (cfg : ECfg)
+    (hns : cfg.nsIface = true) (hattr : AttrTriplesDistinct d) (regexOk : RegexOk) (limit : Nat)
+    {q p : Ast} (hq : Frag2 true q) (hp : RelFrag2 p) (n : Ref)
+    (h : nodesOf (Spec.eval (F := F) d q ⟨.node 0, 1, 1⟩) = [n])
+    (st st' : BState) (o o' : BOut)
+    (hb : build regexOk limit true false p {} st = .ok o)
+    (hb' : build regexOk limit true false (appendPath2 q p) {} st' = .ok o') :
+    ∃ o1 o2, sel (F := F) d cfg o.q n = .ok o1 ∧ sel (F := F) d cfg o'.q (.node 0) = .ok o2 ∧
+      ∀ x, x ∈ refs o1 ↔ x ∈ refs o2 :=
+  C13_relative_compose_full wf cfg hns (PathSem.hashInj_holds wf hattr cfg) regexOk limit
+    hq hp n h st st' o o' hb hb'
+
+/-- **the oracle-side composition law on the whole C02 fragment** (no assumption at all: any
+document, any context) -/
+theorem C13_compose_spec_full (d : Doc) {q p : Ast} (hq : Frag2 true q) (hp : RelFrag2 p)
+    (c : Spec.Ctx) (x : Ref) :
+    x ∈ nodesOf (Spec.eval (F := F) d (appendPath2 q p) c) ↔
+      ∃ n ∈ nodesOf (Spec.eval (F := F) d q c), x ∈ nodesOf (Spec.eval (F := F) d p ⟨n, 1, 1⟩) :=
+  eval_append3 d hq hp c x
+
+/-- **path composition through the builder, whole C02 fragment**: from a valid start node `c` the
+built plan of `q/p` selects `x` iff the built plan of `p`, started at some node the built plan of `q`
+selects from `c`, selects `x`; none of the evaluations fails -/
+theorem C13_compose_build_full {d : Doc} (wf : WF d) (cfg : ECfg) (hns : cfg.nsIface = true)
+    (hinj : HashInj d cfg) (regexOk : RegexOk) (limit : Nat)
+    {q p : Ast} (hq : Frag2 true q) (hp : RelFrag2 p)
+    (stq stp stqp : BState) (bq bp bqp : BOut)
+    (hbq : build regexOk limit true false q {} stq = .ok bq)
+    (hbp : build regexOk limit true false p {} stp = .ok bp)
+    (hbqp : build regexOk limit true false (appendPath2 q p) {} stqp = .ok bqp)
+    (c : Ref) (hc : validRef d c = true) :
+    ∃ oq oqp, sel (F := F) d cfg bq.q c = .ok oq ∧ sel (F := F) d cfg bqp.q c = .ok oqp ∧
+      (∀ n ∈ refs oq, ∃ on, sel (F := F) d cfg bp.q n = .ok on) ∧
+      ∀ x, x ∈ refs oqp ↔
+        ∃ n ∈ refs oq, ∃ on, sel (F := F) d cfg bp.q n = .ok on ∧ x ∈ refs on :=
+  compose_build3 wf cfg hns hinj regexOk limit hq hp stq stp stqp bq bp bqp hbq hbp hbqp c hc
+
+/-- the `_with_predicates` theorems are instances of the `_full` ones -/
+theorem C13_absolute_build_with_predicates_of_full (d : Doc) (cfg : ECfg) (regexOk : RegexOk) (limit : Nat)
+    (snt sdf : Bool) {p : Ast} (hp : AbsFrag p) (fl : Flags) (st : BState) (o : BOut)
+    (h : build regexOk limit snt sdf p fl st = .ok o) (c₁ c₂ : Ref) :
+    sel (F := F) d cfg o.q c₁ = sel (F := F) d cfg o.q c₂ :=
+  C13_absolute_build_full d cfg regexOk limit snt sdf (C13_absFrag_embeds hp) fl st o h c₁ c₂
+
+theorem C13_compose_spec_with_predicates_of_full (d : Doc) {q p : Ast} (hq : Frag true q) (hp : RelFrag p)
+    (c : Spec.Ctx) (x : Ref) :
+    x ∈ nodesOf (Spec.eval (F := F) d (appendPath2 q p) c) ↔
+      ∃ n ∈ nodesOf (Spec.eval (F := F) d q c), x ∈ nodesOf (Spec.eval (F := F) d p ⟨n, 1, 1⟩) :=
+  C13_compose_spec_full d (C13_frag_embeds hq) (C13_relFrag_embeds hp) c x
 
 end XPathV.Theorems.C13
